@@ -287,6 +287,37 @@ def handleInfer (toks : List String) : Option String := do
   let x := match s.paramsInferred with | some x => showListOr showRat "," x | none => "none"
   return s!"loss={loss} x={x} runs={showListOr showRat "," s.lossRuns} rows={s.bootstraps.length} err={showListOr toString "," errs}"
 
+def parseVariant? (t : String) : Option Inference.Variant :=
+  if t == "r" then some .repaired else if t == "p" then some .pinned
+  else if t == "b" then some .boundsValues else none
+
+/-- `k=q` -/
+def parseKeyVal? (t : String) : Option (String × Rat) :=
+  match t.splitOn "=" with
+  | [k, q] => if k == "" then none else (parseRat? q).map fun q => (k, q)
+  | _ => none
+
+/-- `inferlab <variant r|p|b> <bounds keys k1,k2,…> <x0 k=q,k=q,…> <nSamples> <f>:<x1,x2,…> …`
+(one result token per optimiser run, `1 + nSamples` of them, the vector as scipy returned it, i.e.
+positional) → `params=<k=q,…> loss=<q> runs=<q,…> boxes=<key order of the boxes run 0 was given>|<run 1>|…
+labels=<keys the objective of run 0 labels its argument with>|<run 1>|…`:
+the labelling part of `Inference._run` (`Inference.labelResults`), the key order in which
+`_optimize` lists the boxes for every run (`Inference.boxKeyOrders`) and the key order of every
+start dict (`Inference.labelKeyOrders`). -/
+def handleInferLab (v bk x0 n : String) (runs : List String) : Option String := do
+  let v ← parseVariant? v
+  let bk := bk.splitOn ","
+  if bk.any (· == "") then none
+  let x0 ← (x0.splitOn ",").mapM parseKeyVal?
+  let n ← n.toNat?
+  if runs.length != n + 1 then none
+  let results ← runs.mapM parseRun?
+  let x0keys := x0.map Prod.fst
+  let (params, loss, lossRuns) ← Inference.labelResults x0keys results
+  let boxes := Inference.boxKeyOrders v bk x0keys (n + 1)
+  let labels := Inference.labelKeyOrders v bk x0keys (n + 1)
+  return s!"params={showListOr (fun (kv : String × Rat) => s!"{kv.1}={showRat kv.2}") "," params} loss={showRat loss} runs={showListOr showRat "," lossRuns} boxes={"|".intercalate (boxes.map ",".intercalate)} labels={"|".intercalate (labels.map ",".intercalate)}"
+
 def parsePair? (t : String) : Option (Rat × Rat) :=
   match t.splitOn ":" with
   | [a, b] => match parseRat? a, parseRat? b with
@@ -545,6 +576,10 @@ def handle (c : Ctx) (line : String) : Ctx × String :=
     | none => bad
   | "infer" :: ops =>
     match handleInfer ops with
+    | some ans => (c, ans)
+    | none => bad
+  | "inferlab" :: v :: bk :: x0 :: n :: runs =>
+    match handleInferLab v bk x0 n runs with
     | some ans => (c, ans)
     | none => bad
   | "validate" :: toks =>
